@@ -1,0 +1,27 @@
+//go:build verif
+
+package runtime
+
+// Verification hooks (build tag `verif`). With the tag off none of this exists
+// and the call sites compile to empty inlined functions (see verif_off.go).
+
+// VerifHook, when non-nil, receives linearization-point events of executions:
+//
+//	ExecEnd(ok)     the program's code has finished running (ok = without error)
+//	CommitBegin     the runtime is about to write the storage deltas to the ledger
+//	CommitEnd(ok)   the commit returned
+//
+// location is the location of the executing program.
+var VerifHook func(event string, location Location, ok bool)
+
+func verifEvent(event string, location Location, ok bool) {
+	if VerifHook != nil {
+		VerifHook(event, location, ok)
+	}
+}
+
+// VerifSetPeepholeOptimizations switches the compiler's peephole pass for programs
+// compiled by this VM environment (not reachable through runtime.Config).
+func (e *vmEnvironment) VerifSetPeepholeOptimizations(enabled bool) {
+	e.compilerConfig.PeepholeOptimizationsEnabled = enabled
+}
